@@ -14,6 +14,9 @@ def _handle_ctor(em, node, args):
     if not args:
         return "((xc_handle){0})"
     if len(args) == 1:
+        if em._strip_all(args[0]).get("kind") in ("CXXNullPtrLiteralExpr", "GNUNullExpr") or \
+                (args[0].get("kind") == "ImplicitCastExpr" and args[0].get("castKind") == "NullToPointer"):
+            return "((xc_handle){0})"
         return em.expr(args[0])
     raise ExtractionError("shared_ptr construction with %d args" % len(args))
 
@@ -382,3 +385,25 @@ def metrics_boundary(cfg):
         cfg.ext_methods[n + "::begin"] = lambda em, recv, args, n: "%s.data" % recv
         cfg.ext_methods[n + "::end"] = lambda em, recv, args, n: "(%s.data + %s.len)" % (recv, recv)
         cfg.ext_methods[n + "::empty"] = lambda em, recv, args, n: "(%s.len == 0)" % recv
+
+
+# ---------------------------------------------------------------------------------------------
+# SDK tracing boundary (samplers, tracer)
+def _std_handle_type(em, base, targs, name):
+    if base in ("std::shared_ptr", "std::unique_ptr") and targs is not None:
+        return CT("xc_handle")
+    return None
+
+
+def sdk_trace_boundary(cfg):
+    cfg.type_handlers.append(_std_handle_type)
+    cfg.ctor_ext["std::unique_ptr"] = _handle_ctor
+    cfg.ctor_ext["std::shared_ptr"] = _handle_ctor
+    for n in ("common::KeyValueIterable", "trace::SpanContextKeyValueIterable", "KeyValueIterable", "SpanContextKeyValueIterable"):
+        cfg.opaque_records[n] = "xc_opaque"
+    cfg.ext["ldexp"] = lambda em, node, recv, args: "xc_ldexp(%s, %s)" % (em.expr(args[0]), em.expr(args[1]))
+    cfg.ext["modf"] = "modf"
+    for k in ("std::__shared_ptr_access::operator->", "std::shared_ptr::operator->", "std::unique_ptr::operator->"):
+        cfg.ext_methods[k] = lambda em, recv, args, n: recv
+    cfg.ext_q["Sampler::ShouldSample"] = lambda em, node, recv, args: "xc_delegate_ShouldSample(%s)" % ", ".join(
+        [em.expr(recv["node"] if recv.get("xc_is_ptr") else recv)] + em.call_args(em.ix.by_id.get(node["inner"][0].get("referencedMemberDecl")) or {}, args))
